@@ -8,7 +8,7 @@ extracted `PIPELINE_MAX_SIZE_IN_DOCS`, or a number); a call is `<c>` or `<c>:<ph
 (the storage phases that hit a failing operation during that call):
   calls  : `n` Index::writer · `a<d>` add_document(d) · `c` commit · `r` rollback · `d` drop ·
            `m` merge(all).wait · `g` garbage_collect_files.wait · `l` reader reload ·
-           `x` the operator removes an orphaned writer lock file
+           `x` the operator removes an orphaned writer lock file · `w` wait_merging_threads
   phases : `lo` `lf` `ld` lock open/flush/delete · `cr` reads in IndexWriter::new · `wk` worker ·
            `pu` purge · `sm` save_metas · `gl` `gd` `gm` GC lock/delete/managed.json ·
            `mt` merge thread · `ep` `es` end_merge purge/save · `rl` reload ·
@@ -42,6 +42,7 @@ def callOf (t : String) : Option Call :=
   | ['g'] => some .gc
   | ['l'] => some .reload
   | ['x'] => some .removeLock
+  | ['w'] => some .waitMerges
   | 'a' :: rest => (String.ofList rest).toNat?.map .add
   | _ => none
 
